@@ -271,6 +271,16 @@ func init() {
 				}
 				sh = append(sh, vShard{Name: fmt.Sprintf("builders/flat/%s", metric), Run: func(c *vCtx) { vVecBuilderShard(c, bcfg, bdepth) }})
 			}
+			// very large instances (beyond 2^15 and, thorough, 2^16 stored vectors)
+			huge := []int{33000}
+			if tier == "thorough" {
+				huge = []int{33000, 70000}
+			}
+			for _, n := range huge {
+				n := n
+				hcfg := vVecCfg{Kind: "flat", Metric: L2Squared, Dim: 3}
+				sh = append(sh, vShard{Name: fmt.Sprintf("large/huge/%d", n), Run: func(c *vCtx) { vKindLarge(c, hcfg, []int{n}, nil) }})
+			}
 			// size sweep (shared with C02): every n in 1..70 (quick) / 1..300 (thorough)
 			maxN := 70
 			if tier == "thorough" {
